@@ -252,7 +252,7 @@ fn cnat(n: usize) -> String {
 
 const UNKNOWN: usize = 999_999;
 
-struct Obs {
+pub struct Obs {
     tag: u8,
     id: Option<usize>,
     present: bool,
@@ -261,7 +261,7 @@ struct Obs {
     current: Option<usize>,
 }
 impl Obs {
-    fn coq(&self) -> String {
+    pub fn coq(&self) -> String {
         format!(
             "(mk_obs {} {} {} {} {} {})",
             self.tag,
@@ -275,11 +275,11 @@ impl Obs {
 }
 
 #[derive(Default)]
-struct RecState {
+pub struct RecState {
     /// raw Registry id -> creation index of the span it was issued for most recently
     canon: HashMap<u64, usize>,
     next: usize,
-    log: Vec<Obs>,
+    pub log: Vec<Obs>,
 }
 impl RecState {
     fn name(&self, id: &Id) -> usize {
@@ -287,7 +287,7 @@ impl RecState {
     }
 }
 
-struct RecordingLayer(Arc<Mutex<RecState>>);
+pub struct RecordingLayer(pub Arc<Mutex<RecState>>);
 
 impl RecordingLayer {
     fn span_obs<S>(&self, tag: u8, id: &Id, target: Option<&Id>, ctx: &Context<'_, S>)
